@@ -113,6 +113,10 @@ class CompilationUnit(EvaluationContext):
                         f'{param_type.name.upper()}, got '
                         f'{arg.type.name.upper()}',
                         node=arg)
+            elif not arg.type.is_builtin:
+                # an ill-typed argument expression (Type.UNKNOWN has
+                # no name to show)
+                raise CompileError(EC.TYPE_MISMATCH, node=arg)
             elif not arg.type.is_coercible_to(param_type):
                 error_msg = (
                     f'Argument type mismatch: '
